@@ -11,6 +11,7 @@ import operator
 import pickle
 
 from ..core import Violation, stream, sut, exc_name, InjectedFault
+from ..core import deep
 from ..values import (CUR, ModelTraitError, raw, mval, make_validator,
                       RaisingIter, Spell)
 
@@ -139,7 +140,7 @@ class Prop:
         er = stream(seed, "env")
         vk = c.choice(["none", "coerce", "point", "point"])
         listeners = [c.choice(["raw", "raw", "obs"]) for _ in range(c.randint(1, 3))]
-        nops = c.choice([3, 5, 8, 12, 18, 25])
+        nops = deep(c, [3, 5, 8, 12, 18, 25], [40, 70])
         fault_rate = c.choice([0.0, 0.0, 0.1, 0.25]) if vk == "point" else 0.0
         invalid_rate = c.choice([0.0, 0.05, 0.15]) if vk != "none" else 0.0
         copy_on = c.random() < 0.6
